@@ -80,3 +80,35 @@ func vhRaceMint(withWatcher bool, preempt int) {
 
 func VHarnessRaceMintMint()    { vhRaceMint(false, 2) }
 func VHarnessRaceMintWatcher() { vhRaceMint(true, 2) }
+
+// C01/C05 (explicit schedules): two concurrent melts (different quotes) that present the same genuine proof. The lock in
+// pending_proofs is the only thing that serialises them: at most one of them may go on to ask the backend for a payment.
+func VHarnessRaceMeltMelt() {
+	env := vhNewEnv(1)
+	v.Assume(env.m.keysets[env.ids[0]].InputFeePpk == 0)
+	env.hook()
+	m := env.m
+	in, _, ys := env.balancedRequest()
+	raw := env.db.VhRaw()
+	q1 := storage.MeltQuote{Id: "mq1", InvoiceRequest: "lnbc-mq1", PaymentHash: "ph-mq1", Amount: vhDenoms[0], FeeReserve: 0, State: nut05.Unpaid, Expiry: 1}
+	q2 := storage.MeltQuote{Id: "mq2", InvoiceRequest: "lnbc-mq2", PaymentHash: "ph-mq2", Amount: vhDenoms[0], FeeReserve: 0, State: nut05.Unpaid, Expiry: 1}
+	v.Assume(env.db.SaveMeltQuote(q1) == nil)
+	v.Assume(env.db.SaveMeltQuote(q2) == nil)
+	v.Go(func() { m.MeltTokens(context.Background(), nut05.PostMeltBolt11Request{Quote: "mq1", Inputs: in}) })
+	v.Go(func() { m.MeltTokens(context.Background(), nut05.PostMeltBolt11Request{Quote: "mq2", Inputs: in}) })
+	v.Join(2)
+	v.Reach("joined")
+	for _, p := range env.ln.Pays {
+		v.Assert(v.Not(p.PriorOpen), "C01 concurrent melts presenting the same secret: no payment is attempted for one of them while the other's payment may still succeed")
+	}
+	if len(env.ln.Pays) == 2 {
+		v.Reach("both-attempted")
+	}
+	if len(env.ln.Pays) == 1 {
+		v.Reach("one-honoured")
+		spent := v.ZEq(v.SqlCount(raw, "proofs", "y", ys[0]), v.ZU(1))
+		pend := v.ZEq(v.SqlCount(raw, "pending_proofs", "y", ys[0]), v.ZU(1))
+		mayBePaid := v.Not(env.ln.definitiveFailure())
+		v.Assert(v.Implies(mayBePaid, v.Or(spent, pend)), "C05 concurrent melts: the inputs of the payment that may still succeed stay locked or spent, whatever the losing request does")
+	}
+}
